@@ -415,6 +415,7 @@ pub fn rich_code(gap: usize) -> SCode {
 		visible_type: code_type_annotations(n),
 		invisible_type: code_type_annotations(n).into_iter().rev().take(3).collect(),
 		unknown: unknowns("Code"),
+		..Default::default()
 	}
 }
 
